@@ -9,6 +9,7 @@ package k8s
 import (
 	"crypto/sha1" //nolint:gosec // Non-crypto use
 	"encoding/hex"
+	"strings"
 
 	v1 "k8s.io/apimachinery/pkg/apis/meta/v1"
 	"k8s.io/apimachinery/pkg/labels"
@@ -128,7 +129,7 @@ func UniqueKeyFromLabelsSelector(ls *v1.LabelSelector) (string, error) {
 	}
 	requirements, _ := selector.Requirements()
 	// calculating string of requirements (`values` list in a requirement is not sorted internally, Requirement.String() - sorts it)
-	reqStr := ""
+	reqStrings := make([]string, 0, len(requirements))
 	for _, req := range requirements {
 		currentStr := req.String()
 		// for special case of a requirement with In operator and only one value, convert its string to "key=val" (instead of key in (val))
@@ -141,7 +142,10 @@ func UniqueKeyFromLabelsSelector(ls *v1.LabelSelector) (string, error) {
 		if newStr != "" {
 			currentStr = newStr
 		}
-		reqStr += currentStr
+		reqStrings = append(reqStrings, currentStr)
 	}
+	// the strings are joined with a separator that no requirement contains: without it the requirements "ab=c" and
+	// "a","b=c" (or "a","b" and "ab") have one key, and the peer of the second selector is never generated
+	reqStr := strings.Join(reqStrings, ";")
 	return hex.EncodeToString(sha1.New().Sum([]byte(reqStr))), nil //nolint:gosec // Non-crypto use
 }
